@@ -50,13 +50,13 @@ from vf.rec import Rec
 
 ID = 'C16'
 LEVEL = 'model_checking'
-TECHNIQUE = ('explicit-state exploration of the configuration graph of 16 (+1 in the thorough tier) catalog structures on the real '
+TECHNIQUE = ('explicit-state exploration of the configuration graph of 17 (+1 in the thorough tier) catalog structures on the real '
              'Catalog/Controller/CentralController objects: every configuration x every operator x step alphabet '
              'x every answer of the random seam, compared step by step with a plain-Python reference model; every '
              'configuration evaluated through the engine against the formula written out by hand; every history of '
              '(way of obtaining a Configuration object) x 1..2 (3) assignments of its selections property, every observer '
              'of the object against the reference model of the last assignment; the static / operator / hidden-state '
-             '(thorough: depth-2 history) exploration repeated on the 10 (11) structures with hand-written catalogs with every '
+             '(thorough: depth-2 history) exploration repeated on the 11 (12) structures with hand-written catalogs with every '
              'catalog under an explicitly declared Controller whose names are handed over as each of 9 kinds of iterable '
              '(list, tuple, dict keys, re-iterable without len, generator, map, iterator, chain, hand-written one-shot iterator)')
 RULE = ('one case per (structure, configuration, listing order) identifier check, per (structure, configuration, '
@@ -289,6 +289,10 @@ def expand_helper(node, st, choice):
 
 def controllers_of(st):
     """Reference: controller name -> list of selection names, from the description alone."""
+    if st.get('menus'):
+        # part 'orders': the menus are those of the unaltered description, whatever the order (or the set) of the
+        # members listed by the altered catalogs
+        return dict(sorted((c, list(v)) for c, v in st['menus'].items()))
     out = {}
 
     def walk(t):
@@ -330,6 +334,10 @@ def controllers_of(st):
     return dict(sorted(out.items()))
 
 
+class MissingAlternative(Exception):
+    pass
+
+
 def substitute(t, st, choice):
     """The formula written out by hand: every catalog replaced by the member its controller selects."""
     if not isinstance(t, tuple):
@@ -337,6 +345,13 @@ def substitute(t, st, choice):
     k = t[0]
     if k == 'cat':
         ctrl = t[2] if t[2] is not None else t[1]
+        if st.get('menus'):
+            # the alternative MATCHING the selection of the controller: the member carrying that name
+            want = st['menus'][ctrl][choice[ctrl]]
+            found = [mt for mn, mt in t[3] if mn == want]
+            if len(found) != 1:
+                raise MissingAlternative(f'catalog {t[1]!r} has {len(found)} members named {want!r}')
+            return substitute(found[0], st, choice)
         return substitute(t[3][choice[ctrl]][1], st, choice)
     if k == 'h':
         return expand_helper(t, st, choice)
@@ -462,6 +477,179 @@ def ref_eval(t, row, betas):
     raise RuntimeError(f'unknown term {k}')
 
 
+# =========================================================================== tree operations (reference side)
+# An operation is a JSON-able dict:
+#   {'op': 'none'}
+#   {'op': 'rename', 'names': [..], 'prefix': str|None, 'suffix': str|None, 'style': 'kw'|'pos'}
+#   {'op': 'fix',    'values': {name: value}, 'prefix': .., 'suffix': .., 'style': ..}
+#   {'op': 'change', 'values': {name: value}}
+BASE_VARS = ('x', 'y', 'z', 'g', 'h', 'ch', 'av')
+
+
+def affixes(seed):
+    """(prefix, suffix) of the seed's alphabet; never empty, never producing an existing name."""
+    return [('p_', '_1'), ('pre', 'suf'), ('A_', '_B'), ('q', '_')][seed % 4]
+
+
+def affix_options(seed):
+    p, s_ = affixes(seed)
+    return [(p, None), (None, s_), (p, s_)]
+
+
+def ext_columns(seed):
+    """The table of the seed plus, for every variable and every (prefix, suffix) option, a column carrying the renamed
+    name whose values are those of the variable rotated by 1 / 2 / 3 rows (same domain, other value in every row
+    where the column is not constant)."""
+    rows = dict(alphabet(seed)['rows'])
+    out = dict(rows)
+    for k, (p, s_) in enumerate(affix_options(seed), start=1):
+        for v in BASE_VARS:
+            col = rows[v]
+            out[f'{p or ""}{v}{s_ or ""}'] = col[k % len(col):] + col[:k % len(col)]
+    return out
+
+
+def map_leaves(t, f):
+    """A catalog-free term with every ('beta', ..) / ('var', ..) leaf replaced by f(leaf)."""
+    if not isinstance(t, tuple):
+        return t
+    k = t[0]
+    if k in ('beta', 'var'):
+        return f(t)
+    if k in ('num', 'raw'):
+        return t
+    if k in ('cat', 'h'):
+        raise RuntimeError('map_leaves: the term still holds a catalog')
+    if k == 'msum':
+        return ('msum', [map_leaves(a, f) for a in t[1]])
+    if k == 'elem':
+        return ('elem', [(key, map_leaves(a, f)) for key, a in t[1]], map_leaves(t[2], f))
+    if k == 'loglogit':
+        return ('loglogit', [(key, map_leaves(a, f)) for key, a in t[1]],
+                None if t[2] is None else [(key, map_leaves(a, f)) for key, a in t[2]], map_leaves(t[3], f))
+    if k == 'pow':
+        return ('pow', map_leaves(t[1], f), t[2])
+    return (k,) + tuple(map_leaves(a, f) for a in t[1:])
+
+
+def leaves_of(t):
+    acc = []
+
+    def f(leaf):
+        acc.append(leaf)
+        return leaf
+
+    map_leaves(t, f)
+    return acc
+
+
+def ref_treeop(term, op):
+    """What the operation does to a formula written out by hand: the documented effect on every elementary expression."""
+    kind = op['op']
+    if kind == 'none':
+        return term
+    pre, suf = op.get('prefix') or '', op.get('suffix') or ''
+    if kind == 'rename':
+        names = set(op['names'])
+        return map_leaves(term, lambda t: (t[0], pre + t[1] + suf) + t[2:] if t[1] in names else t)
+    vals = op['values']
+    if kind == 'fix':
+        return map_leaves(term, lambda t: ('beta', pre + t[1] + suf, float(vals[t[1]]), 1)
+                          if t[0] == 'beta' and t[1] in vals else t)
+    if kind == 'change':
+        return map_leaves(term, lambda t: ('beta', t[1], float(vals[t[1]]), t[3]) if t[0] == 'beta' and t[1] in vals else t)
+    raise KeyError(kind)
+
+
+def ref_elementary(term):
+    """Reference for the observers of the elementary expressions of a catalog-free formula."""
+    lv = leaves_of(term)
+    variables = sorted({t[1] for t in lv if t[0] == 'var'})
+    betas = {}
+    for t in lv:
+        if t[0] == 'beta':
+            if t[1] in betas and betas[t[1]] != (float(t[2]), t[3]):
+                raise RuntimeError(f'alphabet error: parameter {t[1]} with two values / statuses in one formula')
+            betas[t[1]] = (float(t[2]), t[3])
+    free = sorted(b for b, (_, st_) in betas.items() if st_ == 0)
+    fixed = sorted(b for b, (_, st_) in betas.items() if st_ != 0)
+    sets = dict(VARIABLE=variables, BETA=sorted(betas), FREE_BETA=free, FIXED_BETA=fixed, RANDOM_VARIABLE=[], DRAWS=[])
+    entry = lambda b: (b, 'Beta', b, betas[b][0], betas[b][1])
+    dicts = dict(VARIABLE=[(v, 'Variable', v, None, None) for v in variables], BETA=[entry(b) for b in sorted(betas)],
+                 FREE_BETA=[entry(b) for b in free], FIXED_BETA=[entry(b) for b in fixed], RANDOM_VARIABLE=[], DRAWS=[])
+    return dict(sets=sets, dicts=dicts, beta_values={b: betas[b][0] for b in free}, names=set(variables) | set(betas),
+                kinds={**{v: 'Variable' for v in variables}, **{b: 'Beta' for b in betas}})
+
+
+def op_label(op):
+    """Coarse name of an operation for finding keys."""
+    if op['op'] == 'none':
+        return 'observers-only'
+    if op['op'] == 'change':
+        return 'change_init_values'
+    aff = {(False, False): 'no-affix', (True, False): 'prefix', (False, True): 'suffix', (True, True): 'prefix+suffix'}[
+        (op.get('prefix') is not None, op.get('suffix') is not None)]
+    return ('rename_elementary' if op['op'] == 'rename' else 'fix_betas') + ':' + aff
+
+
+def treeop_alphabet(st, space, seed, tier):
+    """The operations explored on one structure (resolved against the names of the structure) and the reduced alphabet
+    of the histories of depth 2."""
+    terms = [substitute(st['term'], st, ch) for ch in space.configs]
+    lv = [leaf for tm in terms for leaf in leaves_of(tm)]
+    allvars = sorted({t[1] for t in lv if t[0] == 'var'})
+    allbetas = sorted({t[1] for t in lv if t[0] == 'beta'})
+    # names present in every configuration come first (so that the small name lists are never vacuous)
+    common_v = [v for v in allvars if all(any(t == ('var', v) for t in leaves_of(tm)) for tm in terms)] or allvars
+    common_b = [b for b in allbetas if all(any(t[0] == 'beta' and t[1] == b for t in leaves_of(tm)) for tm in terms)] or allbetas
+    p, s_ = affixes(seed)
+    val = lambda i: round((0.35 + 0.2 * i) * (-1 if i % 2 else 1), 6)
+    name_lists = [('one-variable', [common_v[0]]), ('all-variables', allvars),
+                  ('parameter+variable', [common_b[0], allvars[-1]]), ('all-names', allbetas + allvars),
+                  ('absent-name', ['absent'])]
+    full = tier == 'thorough'
+    ops = [dict(op='none')]
+    for label, names in name_lists:
+        if label == 'absent-name' and not full:
+            ops.append(dict(op='rename', names=names, prefix=p, suffix=s_, style='kw'))
+            continue
+        for pre, suf in affix_options(seed):
+            ops.append(dict(op='rename', names=names, prefix=pre, suffix=suf, style='kw'))
+        if full or label == 'all-names':
+            ops.append(dict(op='rename', names=names, prefix=p, suffix=s_, style='pos'))
+            ops.append(dict(op='rename', names=names, prefix=None, suffix=None, style='kw'))
+    fix_dicts = [('one', {common_b[0]: val(0)}), ('all', {b: val(i + 1) for i, b in enumerate(allbetas)}), ('absent', {'absent': val(9)})]
+    for label, vals in fix_dicts:
+        if label == 'absent' and not full:
+            ops.append(dict(op='fix', values=vals, prefix=p, suffix=s_, style='kw'))
+            continue
+        for pre, suf in [(None, None)] + affix_options(seed):
+            ops.append(dict(op='fix', values=vals, prefix=pre, suffix=suf, style='kw'))
+        if full or label == 'all':
+            ops.append(dict(op='fix', values=vals, prefix=p, suffix=s_, style='pos'))
+    for vals in ({common_b[-1]: val(3)}, {b: val(i + 4) for i, b in enumerate(allbetas)}, {'absent': val(8)}):
+        ops.append(dict(op='change', values=vals))
+    # histories of depth 2: a reduced alphabet; the second operation is resolved against the names AFTER the first
+    deep = [dict(op='rename', names=allvars, prefix=None, suffix=s_, style='kw'),
+            dict(op='rename', names=[common_b[0], common_v[0]], prefix=p, suffix=None, style='kw'),
+            dict(op='rename', names='*', prefix=p, suffix=s_, style='kw'),
+            dict(op='fix', values={common_b[0]: val(0)}, prefix=None, suffix=s_, style='kw'),
+            dict(op='fix', values='*', prefix=p, suffix=None, style='kw'),
+            dict(op='change', values='*')]
+    return ops, deep
+
+
+def resolve_op(op, terms_now):
+    """'*' = every name (parameter) of the formulas as they are NOW, in every configuration."""
+    lv = [leaf for tm in terms_now for leaf in leaves_of(tm)]
+    if op.get('names') == '*':
+        return dict(op, names=sorted({t[1] for t in lv}))
+    if op.get('values') == '*':
+        bs = sorted({t[1] for t in lv if t[0] == 'beta'})
+        return dict(op, values={b: round(0.45 + 0.15 * i, 6) * (-1 if i % 3 == 1 else 1) for i, b in enumerate(bs)})
+    return op
+
+
 # =========================================================================== the structures
 def structures(seed):
     al = alphabet(seed)
@@ -538,6 +726,11 @@ def structures(seed):
     in_k = ('cat', n['c2'], n['K'], [(m[0], x), (m[1], ('log', x))])
     out_k = ('cat', n['c1'], n['K'], [(m[0], ('*', b1, in_k)), (m[1], ('-', in_k, b1))])
     add('nested_same_controller', ('+', out_k, ('*', c3, b2)))
+    # 17. a catalog attached to the controller ANOTHER CATALOG made for itself (Catalog(..., controlled_by=first.controlled_by)),
+    #     plus an independent catalog (2 x 2)
+    o1 = ('cat', n['c1'], None, [(m[0], x), (m[1], ('log', x))])
+    o2 = ('cat', n['c2'], n['c1'], [(m[0], ('*', b2, y)), (m[1], ('/', y, z))])
+    add('attached_to_catalog_controller', ('-', ('+', ('*', b1, o1), o2), ('*', c3, b3)))
     return S
 
 
@@ -849,6 +1042,12 @@ class Built:
         # by an explicitly declared Controller named like the catalog (the same space for the reference model)
         self.names_as = st.get('names_as')
         self.explicit = bool(st.get('explicit'))
+        # part 'treeops': 'fresh' = every occurrence of a parameter / variable is its own object (as when the members
+        # are written independently of each other); default: one object per name, shared by all members
+        self.fresh = st.get('leaves') == 'fresh'
+        # part 'orders': the menus of the controllers (the altered catalogs list other members), the constructor used
+        self.menus = st.get('menus') or {}
+        self.ctor = st.get('ctor')
         if choice is None:
             for h in st['helpers']:
                 betas = [self.build(b) for b in h['betas']]
@@ -886,11 +1085,15 @@ class Built:
         if k == 'raw':
             return t[1]
         if k == 'beta':
+            if self.fresh:
+                return ex.Beta(t[1], t[2], None, None, t[3])
             key = ('beta', t[1])
             if key not in self.leaves:
                 self.leaves[key] = ex.Beta(t[1], t[2], None, None, t[3])
             return self.leaves[key]
         if k == 'var':
+            if self.fresh:
+                return ex.Variable(t[1])
             key = ('var', t[1])
             if key not in self.leaves:
                 self.leaves[key] = ex.Variable(t[1])
@@ -902,11 +1105,20 @@ class Built:
             ctrl = None
             cname = t[2] if t[2] is not None else (t[1] if self.explicit else None)
             if cname is not None:
+                if cname not in self.controllers and cname in self.catalogs and not self.explicit:
+                    # the controller a catalog built before made for itself (catalog_b = Catalog(..., controlled_by=
+                    # catalog_a.controlled_by))
+                    self.controllers[cname] = self.catalogs[cname][0].controlled_by
                 if cname not in self.controllers:
                     kind = container_kind(self.names_as or 'list', len(self.controllers))
-                    self.controllers[cname] = self._Controller(cname, as_container(kind, [mn for mn, _ in t[3]]))
+                    menu = self.menus.get(cname) or [mn for mn, _ in t[3]]
+                    self.controllers[cname] = self._Controller(cname, as_container(kind, menu))
                 ctrl = self.controllers[cname]
-            if ctrl is None and len(self.catalogs) % 2 == 1:
+            if self.ctor == 'dict':
+                c = self._Catalog.from_dict(t[1], {mn.name: mn.expression for mn in members}, controlled_by=ctrl)
+            elif self.ctor == 'list':
+                c = self._Catalog(t[1], members, controlled_by=ctrl)
+            elif ctrl is None and len(self.catalogs) % 2 == 1:
                 c = self._Catalog.from_dict(t[1], {mn.name: mn.expression for mn in members})
             elif ctrl is not None and self.explicit and len(self.catalogs) % 2 == 1:
                 c = self._Catalog.from_dict(t[1], {mn.name: mn.expression for mn in members}, controlled_by=ctrl)
@@ -966,20 +1178,20 @@ class Built:
 _DB = {}
 
 
-def database(seed):
-    if seed % 4 not in _DB:
+def database(seed, ext=False):
+    if (seed % 4, ext) not in _DB:
         import pandas as pd
         import biogeme.database as db
-        rows = alphabet(seed)['rows']
+        rows = ext_columns(seed) if ext else alphabet(seed)['rows']
         # column order differs from alphabetical order and from order of use; one unused column
-        cols = ['z', 'unused', 'x', 'ch', 'y', 'h', 'g', 'av']
+        cols = ['z', 'unused', 'x', 'ch', 'y', 'h', 'g', 'av'] + sorted(c for c in rows if c not in alphabet(seed)['rows'])
         data = dict(rows, unused=[7.0, 8.0, 9.0, 10.0])
-        _DB[seed % 4] = db.Database(f't16_{seed % 4}', pd.DataFrame({c: data[c] for c in cols}))
-    return _DB[seed % 4]
+        _DB[(seed % 4, ext)] = db.Database(f't16_{seed % 4}{"_ext" if ext else ""}', pd.DataFrame({c: data[c] for c in cols}))
+    return _DB[(seed % 4, ext)]
 
 
-def table_rows(seed):
-    rows = alphabet(seed)['rows']
+def table_rows(seed, ext=False):
+    rows = ext_columns(seed) if ext else alphabet(seed)['rows']
     n = len(rows['x'])
     return [{c: rows[c][i] for c in rows} for i in range(n)]
 
@@ -1049,7 +1261,7 @@ class Hand:
 
     def __init__(self, st, space, seed):
         self.st, self.space, self.seed = st, space, seed
-        self.db = database(seed)
+        self.db = database(seed, ext=bool(st.get('ext_db')))
         self.cache = {}
 
     def get(self, cid):
@@ -1080,7 +1292,7 @@ class Real:
         self.st, self.space, self.seed = st, space, seed
         self.b = Built(st)
         self.expr = self.b.expr
-        self.db = database(seed)
+        self.db = database(seed, ext=bool(st.get('ext_db')))
         self.tags = None
 
     def catalog_tags(self):
@@ -1113,7 +1325,13 @@ class Real:
                 vio('catalog-not-on-the-member-of-its-controller',
                     f'catalog {cn!r} (controller {ctrl!r}) shows {shown!r}/{shown2!r}, controller says {ctrl_name!r}, '
                     f'configuration {cid!r} says {want!r}', want, shown)
-            if cat.selected().expression is not cat.named_expressions[choice[ctrl]].expression:
+            if self.st.get('menus'):
+                # part 'orders': the matching alternative is the member carrying the name the controller selects
+                named = [ne for ne in cat.named_expressions if ne.name == want]
+                if len(named) != 1 or cat.selected().expression is not named[0].expression:
+                    vio('catalog-not-on-the-member-of-its-controller',
+                        f'catalog {cn!r}: selected() is not its member named {want!r}', want, cat.selected().name)
+            elif cat.selected().expression is not cat.named_expressions[choice[ctrl]].expression:
                 vio('catalog-not-on-the-member-of-its-controller',
                     f'catalog {cn!r}: selected() is not member #{choice[ctrl]}', choice[ctrl], None)
         canon = [cur, sel]
@@ -1154,7 +1372,9 @@ class Real:
 
 
 # =========================================================================== tasks
-PARTS = ('static', 'ops', 'hidden', 'chains', 'confobj')
+PARTS = ('static', 'ops', 'hidden', 'chains', 'confobj', 'orders', 'treeops')
+TREEOPS_PER_TASK = 2
+TREE_MODES = ('shared', 'fresh', 'copy')     # how the elementary objects of the formula with catalogs are held
 # clauses about the state of the real object in a configuration (however it was reached)
 STATE_CLAUSES = {'value-differs-from-hand-written', 'signature-differs-from-hand-written',
                  'formula-text-differs-from-hand-written', 'catalog-not-on-the-member-of-its-controller',
@@ -1198,6 +1418,30 @@ def tasks(tier, seed):
             t.append(dict(part='confobj', st=st['name'], seed=seed, tier=tier, kinds=list(CONF_DEEP_STARTS), depth=3))
     # 'containers': explicitly declared controllers, their names handed over in every kind of iterable
     t += container_tasks(tier, seed, sts)
+    # 'orders': catalogs handed to an existing controller with their members in every other order (refused, or like the
+    # hand-written formula)
+    for st in sts:
+        if not has_handwritten_catalog(st):
+            continue
+        if any(ctrl is not None for ctrl, _ in cat_nodes(st).values()):
+            t.append(dict(part='orders', st=st['name'], seed=seed, tier=tier, explicit=False))
+        t.append(dict(part='orders', st=st['name'], seed=seed, tier=tier, explicit=True))
+    # 'treeops': tree operations on the formula in every configuration against the hand-written formula
+    for st in sts:
+        ids = RefSpace(st).all_ids()
+        per = TREEOPS_PER_TASK
+        for i in range(0, len(ids), per):
+            t.append(dict(part='treeops', st=st['name'], seed=seed, tier=tier, cids=ids[i:i + per], depth=1))
+    for st in sts:
+        ids = RefSpace(st).all_ids()
+        if tier != 'thorough':
+            # quick: histories of depth 2 on the first and the last configuration of the structures without a logit
+            if st['big'] or st['helpers'] or st['name'] in ('top_level2x2', 'logit_avail2x2'):
+                continue
+            ids = ids[:1] + ids[-1:]
+        for i in range(0, len(ids), TREEOPS_PER_TASK):
+            t.append(dict(part='treeops', st=st['name'], seed=seed, tier=tier, cids=ids[i:i + TREEOPS_PER_TASK], depth=2,
+                          modes=list(TREE_MODES if tier == 'thorough' else TREE_MODES[:2])))
     return t
 
 
@@ -1267,6 +1511,8 @@ def run_task(task, _raw=False):
         st = get_structure(task['seed'], task['st'])
         if variant:
             st = dict(st, names_as=task['names_as'], explicit=bool(task.get('explicit')))
+        elif task['part'] == 'orders' and task.get('explicit'):
+            st = dict(st, explicit=True)
         space = RefSpace(st)
         case = {k: v for k, v in task.items() if k != 'fresh'}
         # what the finding key names: the structure; for the 'containers' variants the kind of iterable the controller
@@ -1299,6 +1545,10 @@ def run_task(task, _raw=False):
                 _chains(task, st, space, rec, vio_factory)
             elif task['part'] == 'confobj':
                 _confobj(task, st, space, rec)
+            elif task['part'] == 'orders':
+                _orders(task, st, space, rec)
+            elif task['part'] == 'treeops':
+                _treeops(task, st, space, rec)
         except Exception as e:
             # every input of this driver is valid: an exception raised by library code is an observed outcome
             if not library_raised(e):
@@ -2079,6 +2329,369 @@ def _confobj(task, st, space, rec):
                                  f'{_grab(obj.get_string_id)!r}', ids[bi], repr(_grab(obj.get_string_id)), pattern)
     rec.sample(dict(part='confobj', structure=st['name'], kinds=task['kinds'], depth=depth, histories=nhist,
                     configurations=n, listing_orders=nperm))
+
+
+# --------------------------------------------------------------------------- part 'orders'
+def rewrite_cats(t, f):
+    """The term with every ('cat', ..) node replaced by f(node) (the members are rewritten first)."""
+    if isinstance(t, list):
+        return [rewrite_cats(a, f) for a in t]
+    if not isinstance(t, tuple):
+        return t
+    if t and t[0] == 'cat':
+        return f(('cat', t[1], t[2], [(mn, rewrite_cats(mt, f)) for mn, mt in t[3]]))
+    return tuple(rewrite_cats(a, f) for a in t)
+
+
+def cat_nodes(st):
+    """catalog name -> (controller name as the description gives it, member names), in order of first occurrence."""
+    out = {}
+
+    def f(node):
+        out.setdefault(node[1], (node[2], [mn for mn, _ in node[3]]))
+        return node
+
+    rewrite_cats(st['term'], f)
+    return out
+
+
+def alter_members(members, alteration):
+    """The list of members a catalog is declared with, altered."""
+    kind = alteration[0]
+    if kind == 'perm':
+        return [members[i] for i in alteration[1]]
+    if kind == 'drop-last':
+        return members[:-1]
+    if kind == 'rename-last':
+        return members[:-1] + [(members[-1][0] + '~', members[-1][1])]
+    if kind == 'extra':
+        return members + [('extra~', members[0][1])]
+    raise KeyError(kind)
+
+
+ORDER_WHERE = {'perm': 'catalog-members-in-another-order-than-its-controller',
+               'extra': 'catalog-with-a-member-unknown-to-its-controller',
+               'drop-last': 'catalog-lacking-an-alternative-of-its-controller',
+               'rename-last': 'catalog-lacking-an-alternative-of-its-controller'}
+
+
+def order_variants(st, explicit, tier):
+    """(targets, {catalog: alteration}, constructor): every catalog handed to an existing controller (controlled_by=...)
+    with its members in EVERY other order (and with one member dropped / renamed / added), one catalog at a time and
+    all the catalogs of one controller together; thorough: also every pair of different orders on two catalogs of one
+    controller."""
+    nodes = cat_nodes(st)
+    attached = [c for c, (ctrl, _) in nodes.items() if ctrl is not None or explicit]
+    by_ctrl = {}
+    for c in attached:
+        by_ctrl.setdefault(nodes[c][0] if nodes[c][0] is not None else c, []).append(c)
+    out = []
+    for c in attached:
+        n = len(nodes[c][1])
+        alts = [('perm', list(pm)) for pm in list(itertools.permutations(range(n)))[1:]]
+        alts += ([('drop-last',)] if n >= 2 else []) + [('rename-last',), ('extra',)]
+        for a in alts:
+            out.append({c: a})
+    for ctrl, cs in by_ctrl.items():
+        if len(cs) < 2:
+            continue
+        n = len(nodes[cs[0]][1])
+        perms = [list(pm) for pm in list(itertools.permutations(range(n)))[1:]]
+        for pm in perms:
+            out.append({c: ('perm', pm) for c in cs})
+        if tier == 'thorough':
+            for c1, c2 in itertools.combinations(cs, 2):
+                for p1 in perms:
+                    for p2 in perms:
+                        if p1 != p2:
+                            out.append({c1: ('perm', p1), c2: ('perm', p2)})
+    return [(alt, ctor) for alt in out for ctor in ('list', 'dict')]
+
+
+def _orders(task, st, space, rec):
+    from biogeme.configuration import Configuration
+    from biogeme.exceptions import BiogemeError
+
+    seed = task['seed']
+    explicit = bool(task.get('explicit'))
+    menus = controllers_of(st)
+    ids = space.all_ids()
+    case = {k: v for k, v in task.items() if k != 'fresh'}
+    n_refused = n_accepted = 0
+    for alt, ctor in order_variants(st, explicit, task['tier']):
+        kinds = sorted({a[0] for a in alt.values()})
+        where = ORDER_WHERE[kinds[0]]
+        label = (f'{st["name"]}{" (every catalog under a declared controller)" if explicit else ""}, seed {seed}: '
+                 f'catalogs {sorted(alt)} declared through {"Catalog.from_dict" if ctor == "dict" else "Catalog(list)"} with controlled_by '
+                 f'and the members {({c: alter_names(cat_nodes(st)[c][1], a) for c, a in alt.items()})}; controllers {menus}')
+
+        def ovio(clause, what, expected=None, observed=None, witness=None):
+            key = f'C16|{clause}|{where}'
+            rec.violation(key, f'[{label}] {what}', dict(case, key=key), expected=expected, observed=observed)
+
+        term = rewrite_cats(st['term'], lambda nd: ('cat', nd[1], nd[2], alter_members(nd[3], alt[nd[1]])) if nd[1] in alt else nd)
+        st2 = dict(st, term=term, menus=menus, ctor=ctor)
+        ckey = ('orders', st['name'], explicit, tuple(sorted((c, repr(a)) for c, a in alt.items())), ctor)
+        try:
+            real = Real(st2, space, seed)
+        except Exception as e:
+            if not library_raised(e):
+                raise
+            # refused: an acceptable outcome
+            n_refused += 1
+            rec.case(ckey, ('refused', type(e).__name__), outcome=('orders', kinds[0], 'refused', isinstance(e, BiogemeError)))
+            continue
+        n_accepted += 1
+        rec.case(ckey, ('accepted',), outcome=('orders', kinds[0], 'accepted'))
+        if kinds[0] in ('drop-last', 'rename-last'):
+            ovio('catalog-cannot-take-the-alternative-of-its-controller',
+                 'the catalog is accepted although it has no member for one of the selections of its controller',
+                 'refused (BiogemeError)', 'accepted')
+            continue
+        # accepted: it must then behave like the formula written out by hand (alternatives matched by NAME)
+        hand = Hand(st2, space, seed)
+        try:
+            for cid in ids + ids[::-1]:
+                real.expr.configure_catalogs(Configuration.from_string(cid))
+                real.check_state(cid, hand, rec, ovio, 2)
+        except Exception as e:
+            if not library_raised(e):
+                raise
+            if isinstance(e, RuntimeError):
+                rec.retire = True
+            ovio('accepted-catalog-cannot-be-configured', f'{type(e).__name__}: {e} (in {where_raised(e)})', None,
+                 f'{type(e).__name__}: {e}')
+    rec.count('orders_refused', n_refused)
+    rec.count('orders_accepted', n_accepted)
+    rec.sample(dict(part='orders', structure=st['name'], explicit=explicit, refused=n_refused, accepted=n_accepted))
+
+
+def alter_names(names, alteration):
+    return [mn for mn, _ in alter_members([(nm, None) for nm in names], alteration)]
+
+
+# --------------------------------------------------------------------------- part 'treeops'
+def real_treeop(expr, op):
+    kind = op['op']
+    if kind == 'none':
+        return
+    if kind == 'rename':
+        if op['style'] == 'pos':
+            expr.rename_elementary(list(op['names']), op['prefix'], op['suffix'])
+        else:
+            expr.rename_elementary(list(op['names']), prefix=op['prefix'], suffix=op['suffix'])
+    elif kind == 'fix':
+        if op['style'] == 'pos':
+            expr.fix_betas(dict(op['values']), op['prefix'], op['suffix'])
+        else:
+            expr.fix_betas(dict(op['values']), prefix=op['prefix'], suffix=op['suffix'])
+    elif kind == 'change':
+        expr.change_init_values(dict(op['values']))
+    else:
+        raise KeyError(kind)
+
+
+def within_assumptions(op, terms_now):
+    """The new names of a renaming are neither listed for renaming themselves nor already in use."""
+    if op['op'] not in ('rename', 'fix') or (op.get('prefix') is None and op.get('suffix') is None):
+        return True
+    listed = set(op['names'] if op['op'] == 'rename' else op['values'])
+    present = {t[1] for tm in terms_now for t in leaves_of(tm)}
+    new = {(op.get('prefix') or '') + nm + (op.get('suffix') or '') for nm in listed & present}
+    return not (new & listed) and not (new & present)
+
+
+def tree_observe(expr, db, names, probe, evaluate, tags=()):
+    """Every observer of the elementary expressions of a formula + text, engine values, signature."""
+    from biogeme.expressions import TypeOfElementaryExpression as T
+    out = {}
+    out['sets'] = {t.name: sorted(expr.set_of_elementary_expression(t)) for t in T}
+    out['dicts'] = {t.name: sorted((k, type(e).__name__, e.name, getattr(e, 'initValue', None), getattr(e, 'status', None))
+                                   for k, e in expr.dict_of_elementary_expression(t).items()) for t in T}
+    out['beta_values'] = dict(sorted(expr.get_beta_values().items()))
+    got = {}
+    for nm in probe:
+        e = expr.get_elementary_expression(nm)
+        got[nm] = None if e is None else (type(e).__name__, e.name)
+    out['get'] = got
+    # the remaining read-only tree operations (compared with the hand-written formula only)
+    status = expr.get_status_id_manager()
+    out['misc'] = dict(embed={c: bool(expr.embed_expression(c)) for c in EMBED_CLASSES}, draws=bool(expr.requires_draws()),
+                       check_draws=sorted(expr.check_draws()), check_rv=sorted(expr.check_rv()),
+                       panel=sorted(expr.check_panel_trajectory()), n_panel=expr.count_panel_trajectory_expressions(),
+                       id_status=[sorted(set(status[0])), sorted(set(status[1]))])
+    out['str'] = strip_catalog_tags(str(expr), tags)
+    if evaluate:
+        out.update(observe(expr, db, names))
+    return out
+
+
+EMBED_CLASSES = ('exp', 'log', 'Times', 'Plus', 'Minus', 'Divide', 'UnaryMinus', 'Power', 'PowerConstant', 'bioMin', 'bioMax',
+                 'Elem', 'bioMultSum', 'LogLogit', '_bioLogLogit', '_bioLogLogitFullChoiceSet', 'Beta', 'Variable', 'Numeric',
+                 'Greater', 'GreaterOrEqual', 'Equal', 'MonteCarlo', 'bioDraws', 'PanelLikelihoodTrajectory')
+TREE_FIELDS = (('misc', 'other-observers'), ('sets', 'elementary-expressions'), ('dicts', 'elementary-expressions'), ('beta_values', 'elementary-expressions'),
+               ('get', 'elementary-expressions'), ('str', 'text'), ('v0', 'value'), ('v1', 'value'), ('sig', 'signature'))
+
+
+def _same(field, a, b):
+    if field in ('v0', 'v1'):
+        return len(a) == len(b) and all(close(x_, y_) for x_, y_ in zip(a, b))
+    return a == b
+
+
+def _treeops(task, st, space, rec):
+    from biogeme.configuration import Configuration
+
+    seed = task['seed']
+    depth = task['depth']
+    st = dict(st, ext_db=True)
+    db = database(seed, ext=True)
+    rows = table_rows(seed, ext=True)
+    columns = set(ext_columns(seed))
+    ids = space.all_ids()
+    all_terms0 = [substitute(st['term'], st, ch) for ch in space.configs]
+    ops, deep = treeop_alphabet(st, space, seed, task['tier'])
+    sequences = [(o,) for o in ops] if depth == 1 else [hist for hist in itertools.product(deep, repeat=depth)]
+    case = {k: v for k, v in task.items() if k != 'fresh'}
+    ncases = 0
+    import logging
+    noisy = logging.getLogger('biogeme.expressions.beta_parameters')   # "Parameter .. is fixed, but its value is changed"
+    level = noisy.level
+    noisy.setLevel(logging.ERROR)
+    try:
+        _treeops_loop(task, st, space, rec, seed, depth, db, rows, columns, ids, all_terms0, sequences, case)
+    finally:
+        noisy.setLevel(level)
+
+
+def _treeops_loop(task, st, space, rec, seed, depth, db, rows, columns, ids, all_terms0, sequences, case):
+    from biogeme.configuration import Configuration
+
+    ncases = 0
+    for cid in task['cids']:
+        ci = ids.index(cid)
+        choice = space.parse(cid)
+        pred = ids[(ci + 1) % len(ids)]
+        for si, seq in enumerate(sequences):
+            # ---- reference model: the operations applied to the formula written out by hand
+            term, terms_now, resolved = all_terms0[ci], all_terms0, []
+            for op in seq:
+                op = resolve_op(op, terms_now)
+                if not within_assumptions(op, terms_now):
+                    resolved = None
+                    break
+                resolved.append(op)
+                term = ref_treeop(term, op)
+                terms_now = [ref_treeop(tm, op) for tm in terms_now]
+            if resolved is None:
+                rec.count('treeops_skipped_new_name_listed_or_in_use')
+                continue
+            want = ref_elementary(term)
+            names = beta_names(term)
+            probe = sorted(want['names'] | {t[1] for t in leaves_of(all_terms0[ci])} | {'absent'})
+            evaluate = set(want['sets']['VARIABLE']) <= columns
+            if not evaluate:
+                rec.count('treeops_not_evaluated_no_such_column')
+            want['get'] = {nm: ((want['kinds'][nm], nm) if nm in want['names'] else None) for nm in probe}
+            if evaluate:
+                for which in (0, 1):
+                    pt = point(names, which) or {}
+                    try:
+                        want[f'v{which}'] = [ref_eval(term, row, pt) for row in rows]
+                    except OutOfDomain:
+                        want[f'v{which}'] = None
+                        rec.count('treeops_value_out_of_domain')
+            kinds = '>'.join(op_label(o) if depth == 1 else op_label(o).split(':')[0] for o in resolved)
+            text = f'in {cid!r} (selected after {pred!r}): ' + ' ; '.join(
+                f'{o["op"]}({ {k: v for k, v in o.items() if k != "op"} })' for o in resolved)
+
+            def tvio(clause, field, what, expected, observed):
+                key = f'C16|{clause}|{kinds}:{field}'
+                rec.violation(key, f'[{st["name"]}, seed {seed}] {text}: {what}', dict(case, key=key),
+                              expected=expected, observed=observed)
+
+            # ---- the hand-written formula on the real library, the same operations applied to it
+            def run_hand():
+                hb = Built(dict(st, leaves='fresh'), choice)
+                for o in resolved:
+                    real_treeop(hb.expr, o)
+                return tree_observe(hb.expr, db, names, probe, evaluate)
+
+            hand_obs = _grab_lib(run_hand, rec)
+            changed = term != all_terms0[ci]
+            for mode in task.get('modes') or TREE_MODES:
+                real = Real(dict(st, leaves='fresh' if mode == 'copy' else mode), space, seed)
+
+                def run_real():
+                    real.expr.configure_catalogs(Configuration.from_string(pred))
+                    real.expr.configure_catalogs(Configuration.from_string(cid))
+                    target = real.expr
+                    if mode == 'copy':
+                        # the operations are applied to a deep copy of the configured formula (as the sampling of
+                        # alternatives does before renaming the attributes); the copy is the object observed
+                        import copy
+                        target = copy.deepcopy(real.expr)
+                    for o in resolved:
+                        real_treeop(target, o)
+                    got = tree_observe(target, db, names, probe, evaluate, real.catalog_tags())
+                    got['current'] = target.current_configuration().get_string_id()
+                    return got
+
+                obs = _grab_lib(run_real, rec)
+                ncases += 1
+                bad = []
+                if isinstance(obs, _Failed) or isinstance(hand_obs, _Failed):
+                    if isinstance(obs, _Failed) and not isinstance(hand_obs, _Failed):
+                        bad.append('raised')
+                        tvio('tree-operation-result-differs-from-hand-written', 'raises',
+                             f'[{mode} elementary objects] the formula with catalogs raised {obs!r}; the hand-written formula does not',
+                             'no exception', repr(obs))
+                    elif isinstance(hand_obs, _Failed) and not isinstance(obs, _Failed):
+                        bad.append('hand-raised')
+                        tvio('tree-operation-result-differs-from-hand-written', 'raises',
+                             f'[{mode} elementary objects] the hand-written formula raised {hand_obs!r}; the formula with catalogs does not',
+                             repr(hand_obs), 'no exception')
+                    else:
+                        rec.count('treeops_both_sides_raise')
+                else:
+                    # the selection must not have moved
+                    if obs['current'] != cid:
+                        bad.append('current')
+                        tvio('current-configuration-differs', 'selection', f'[{mode}] current_configuration() = {obs["current"]!r}', cid,
+                             obs['current'])
+                    if mode != 'copy':
+                        real.check_state(cid, None, rec, lambda clause, what, e=None, o=None, witness=None:
+                                         tvio(clause, 'selection', what, e, o), 0)
+                    for field, group in TREE_FIELDS:
+                        if field not in hand_obs:
+                            continue
+                        if not _same(field, obs[field], hand_obs[field]):
+                            bad.append(field)
+                            tvio('tree-operation-result-differs-from-hand-written', group,
+                                 f'[{mode} elementary objects] {field}: formula with catalogs {obs[field]!r}; hand-written formula after the '
+                                 f'same operations {hand_obs[field]!r}', hand_obs[field], obs[field])
+                        elif field in want and want[field] is not None and not _same(field, obs[field], want[field]):
+                            bad.append(field + '/model')
+                            tvio('tree-operation-result-differs-from-reference-model', group,
+                                 f'[{mode} elementary objects] {field}: formula with catalogs and hand-written formula {obs[field]!r}; '
+                                 f'reference model {want[field]!r}', want[field], obs[field])
+                rec.case(('tree', st['name'], cid, mode, si, depth) if changed or si == 0 else None,
+                         (cid, mode, si, None if isinstance(obs, _Failed) else (obs['sets'], obs['beta_values'], obs['str'], obs.get('v0'))),
+                         outcome=('tree', kinds, not bad))
+    rec.sample(dict(part='treeops', structure=st['name'], configurations=task['cids'], depth=depth, histories=len(sequences),
+                    cases=ncases))
+
+
+def _grab_lib(fn, rec):
+    """Result of fn(), or a _Failed when LIBRARY code raised (an engine error retires the worker)."""
+    try:
+        return fn()
+    except Exception as e:
+        if not library_raised(e):
+            raise
+        if isinstance(e, RuntimeError):
+            rec.retire = True
+        return _Failed(e)
 
 
 def on_abort(task, info):
